@@ -260,10 +260,11 @@ def hostile_config(rng):
         kind = "spin" if spin else "bool"
         tn = rng.choice([t for t in A.ACCEPT[fn] if t not in ("QUBO", "QUSO", "QUBOMatrix", "QUSOMatrix")])
         mat = tn.endswith("Matrix")
-        labs = list(range(9)) if (mat or tn == "dict") else ["v%d" % i for i in range(9)]
+        nl_ = 9 if (rng.random() < 0.7 or fn != "anneal_puso") else 24      # (a boolean term of degree d becomes 2^d spin terms: long terms for the spin function only)
+        labs = list(range(nl_)) if (mat or tn == "dict") else ["v%d" % i for i in range(nl_)]
         terms = {}
         for _ in range(rng.randint(1, 5)):
-            terms[tuple(rng.sample(labs, rng.randint(3, 8)))] = rng.choice(coefs)
+            terms[tuple(rng.sample(labs, rng.randint(3, 8) if nl_ == 9 else rng.randint(14, 22)))] = rng.choice(coefs)
     elif cls == "raw-repeated-labels":
         tn = "dict"
         mat = False
